@@ -300,6 +300,15 @@ def generate_inputs(ctx, t, corpus):
     return out
 
 
+def _phase(ctx, name):
+    import resource
+    r = resource.getrusage(resource.RUSAGE_CHILDREN)
+    now, cpu = time.time(), r.ru_utime + r.ru_stime
+    last = getattr(ctx, "_phase_last", (ctx.t0, 0.0))
+    ctx.extra.setdefault("phases_wall_cpu_s", []).append([name, round(now - last[0], 1), round(cpu - last[1], 1)])
+    ctx._phase_last = (now, cpu)
+
+
 def run(ctx):
     if fw.REPO not in sys.path[:1]:
         sys.path.insert(0, fw.REPO)
@@ -316,6 +325,7 @@ def run(ctx):
                        "the model reads the tables the way _tokenize_line does (literals first, then regexes; hand-modelled control flow, tested by the correspondence)"]
     ctx.audit()
     thm_ok = ctx.check_theorems("EmbossV.Lex.Properties_C10", "Lex/Properties_C10.v", expect_min=12)
+    _phase(ctx, "theorems (make + Print Assumptions)")
 
     # ---- (T) regenerate the tables -------------------------------------------------
     os.makedirs(fw.GEN, exist_ok=True)
@@ -339,6 +349,7 @@ def run(ctx):
         ctx.violation("lex-table-translator", "generated table does not compile", dict(kind="tie", log=out[-3000:]), found_input=False)
         return
     corpus = lg.corpus_files(fw.REPO)
+    _phase(ctx, "tables regenerated and compiled")
 
     # ---- instance facts and theorems on the regenerated table ---------------------------
     broken_facts = []
@@ -378,6 +389,7 @@ def run(ctx):
                 if ctx.extra["audit_generated"]:
                     ctx.violation("audit", "forbidden vernacular in generated files", dict(kind="audit", problems=ctx.extra["audit_generated"]), found_input=False)
 
+    _phase(ctx, "instance facts and theorems")
     # ---- (C) correspondence ------------------------------------------------------------
     inputs = []
     cdir = os.path.join(fw.VERIF, "corpus", "C10")
@@ -414,7 +426,7 @@ def run(ctx):
     ctx.count("chars-total", sum(len(c[2]["text"]) for c in cases))
     ctx.count("tokens-total", sum(len(c[2]["res"][1]) for c in cases if c[2]["res"][0] == "toks"))
 
-    ctx.extra["t_before_model"] = round(time.time() - ctx.t0, 1)
+    _phase(ctx, "inputs generated, tokenizer.tokenize run")
     bad = []          # (index, model output text)
     exe, log = build_extracted(ctx)
     ctx.obligation("model extracted to OCaml (ExtrOcamlBasic only) and driver built", exe is not None)
@@ -422,7 +434,9 @@ def run(ctx):
         ctx.violation("harness-extraction", "extraction / OCaml build failed", dict(kind="harness", log=log[-3000:]), found_input=False)
         coq_idx = list(range(len(cases)))[:3000]
     else:
+        _phase(ctx, "extraction + ocamlopt")
         outs = run_extracted(exe, [c[2]["text"] for c in cases])
+        _phase(ctx, "extracted model run")
         for i, (c, o) in enumerate(zip(cases, outs)):
             if o != canon(c[2]["res"]):
                 bad.append((i, o[:3000]))
@@ -430,14 +444,14 @@ def run(ctx):
                        % len(cases), not bad)
         # the same comparison inside Coq (vm_compute) on a sample: extraction is a speed-up, not a premise
         fixed = [i for i, c in enumerate(cases) if c[2]["shape"] in ("edge", "corpus-replay", "replay", "codepoint-sweep")]
-        rest = [i for i, c in enumerate(cases) if c[2]["shape"] not in ("edge", "corpus-replay", "replay", "codepoint-sweep") and len(c[2]["text"]) <= 1500]
-        k = min(len(rest), 1500 if ctx.thorough() else 260)
+        rest = [i for i, c in enumerate(cases) if c[2]["shape"] not in ("edge", "corpus-replay", "replay", "codepoint-sweep") and len(c[2]["text"]) <= (1500 if ctx.thorough() else 400)]
+        k = min(len(rest), 1500 if ctx.thorough() else 150)
         coq_idx = fixed + ctx.rng.sample(rest, k)
     sub = [cases[i] for i in coq_idx]
     runner = fw.CoqCases(ctx, "tok", HEADER + "Open Scope N_scope.\n", "run_tokenize code_table", "xresult_eqb",
-                         "str", "xresult", shard=max(10, len(sub) // (2 * fw.NPROC) + 1), timeout=1500)
+                         "str", "xresult", shard=max(10, len(sub) // (fw.NPROC if ctx.thorough() else 8) + 1), timeout=1500)
     bad_coq = runner.run(sub)
-    ctx.extra["t_after_model"] = round(time.time() - ctx.t0, 1)
+    _phase(ctx, "in-Coq sample")
     ctx.obligation("correspondence (inside Coq, vm_compute): model = tokenizer.tokenize on %d of these texts" % len(sub), not bad_coq)
     have = {i for i, _ in bad}
     for j, outtxt in bad_coq:
@@ -482,10 +496,10 @@ def run(ctx):
         if why:
             found.append((obj["text"], why, obj["shape"]))
     ctx.extra["invariant_checks_on_python_output"] = n_inv
-    ctx.extra["search_seconds"] = round(time.time() - t_search, 1)
+    _phase(ctx, "invariant checks / search")
     for text, why, shape in found[:3]:
         report_input(ctx, tok, doc, text, why, shape)
-    ctx.extra["report_seconds"] = round(time.time() - t_search, 1)
+    _phase(ctx, "shrinking and reporting")
     if not found:
         for idx, outtxt in bad[:3]:
             obj = cases[idx][2]
